@@ -37,6 +37,7 @@ type recLogger struct {
 	Truncs      int // "Finished truncate" lines of the weight-triggered truncation loop
 	TruncStarts int
 	stopping    bool // the node's context has been cancelled: whatever its loops log now is shutdown noise
+	onTruncated func() // called when the truncation loop reports a finished truncation (its lock is released by then)
 	keep        bool
 	Lines       []string
 }
@@ -51,6 +52,9 @@ func (l *recLogger) Info(msg string) {
 	l.Infos++
 	if strings.HasPrefix(msg, "Finished truncate") {
 		l.Truncs++
+		if l.onTruncated != nil && !l.stopping {
+			l.onTruncated()
+		}
 	}
 	if strings.HasPrefix(msg, "Starting truncate") {
 		l.TruncStarts++
@@ -244,6 +248,7 @@ type World struct {
 	Ops                int
 	taskPanicReported  map[int]bool
 	stuck              []*opHandle
+	noTruncObserve     bool
 	cacheKeys          map[int][2][]string
 	truncFailed        map[int]bool // nodes on which a synchronous truncation returned a real error (production exits there)
 }
@@ -330,6 +335,17 @@ func (w *World) startNode(i int) error {
 	delete(w.truncFailed, i)
 	n.ctx, n.cancel = context.WithCancel(w.ctx)
 	n.Log = &recLogger{node: n.URL, keep: w.Cfg.KeepLogs}
+	n.Log.onTruncated = func() {
+		if w.noTruncObserve {
+			return
+		}
+		// observe the ledger after EVERY weight-triggered truncation: what one truncation did to the checkpoint
+		// (e.g. clamping an overdrawn wallet) cannot be reconstructed once the next one has run
+		if s := w.snapshot(n); s != nil {
+			w.checkSnap(s)
+			w.probe("snapshot-after-weight-triggered-truncation")
+		}
+	}
 	me := simrt.Me()
 	old := ""
 	if me != nil {
